@@ -27,12 +27,9 @@ func (hf *hiddenFile) Name() string {
 	return hf.f.Name()
 }
 func (hf *hiddenFile) Readdir(count int) ([]fs.FileInfo, error) {
-	var availableFiles []fs.FileInfo
-	if count > 0 {
-		availableFiles = make([]fs.FileInfo, 0, count)
-	} else {
-		availableFiles = make([]fs.FileInfo, 0)
-	}
+	// no pre-allocation by count: any count is legal (os.File.Readdir(math.MaxInt) lists the
+	// directory), a capacity of count made huge counts panic or exhaust memory
+	availableFiles := make([]fs.FileInfo, 0)
 
 	// extra case where no io.EOF error is returned
 	if count <= 0 {
@@ -83,12 +80,9 @@ func (hf *hiddenFile) Readdir(count int) ([]fs.FileInfo, error) {
 	return availableFiles, nil
 }
 func (hf *hiddenFile) Readdirnames(count int) ([]string, error) {
-	var availableFiles []string
-	if count > 0 {
-		availableFiles = make([]string, 0, count)
-	} else {
-		availableFiles = make([]string, 0)
-	}
+	// no pre-allocation by count: any count is legal (os.File.Readdirnames(math.MaxInt) lists the
+	// directory), a capacity of count made huge counts panic or exhaust memory
+	availableFiles := make([]string, 0)
 
 	// extra case where no io.EOF error is returned
 	if count <= 0 {
